@@ -499,7 +499,10 @@ def _to_obj_array(x):
             raise ValueError('setting an array element with a sequence (inhomogeneous shape)')
         out = np.empty((len(subs),) + shp, dtype=object)
         for i, s in enumerate(subs):
-            out[i] = s
+            if shp:
+                out[i, ...] = s
+            else:
+                out[i] = s[()]
         return out
     out = np.empty((), dtype=object)
     out[()] = x
